@@ -160,6 +160,18 @@ def extract():
     if iinfo is None:
         iinfo = {"ok": False, "reason": "import extractor crashed: " + out2[-1500:]}
     info["imports"] = iinfo
+    rc3, out3 = sh([PY, os.path.join(TOOLS, "extract_leaf.py")], timeout=600)
+    linfo = None
+    for line in out3.splitlines():
+        line = line.strip()
+        if line.startswith("{"):
+            try:
+                linfo = json.loads(line)
+            except ValueError:
+                pass
+    if linfo is None:
+        linfo = {"ok": False, "groups": {}, "reason": "leaf translator crashed: " + out3[-1500:]}
+    info["leaf"] = linfo
     return info
 
 
@@ -319,6 +331,11 @@ def run_check(pid, tier, seed, replay=None):
             rc, out = make(["Tie/%s.vo" % pid, "Model/Obs.vo", "Harness/H.vo", "Gen/Src.vo"])
             tie_ok = rc == 0
             obligations.append(("Tie/%s.v compiles: cfg_ok items hold of the regenerated configuration and the closed corollaries follow" % pid, tie_ok, out[-2500:] if rc else None))
+            for grp in getattr(mod, "LEAF", []):
+                g = info.get("leaf", {}).get("groups", {}).get(grp, {})
+                rc, out = make(["Tie/%s.vo" % grp]) if g.get("ok") else (1, g.get("reason") or info.get("leaf", {}).get("reason") or "not translated")
+                obligations.append(("Tie/%s.v compiles: the function bodies translated from the current source by tools/extract_leaf.py equal the model's definitions" % grp,
+                                    rc == 0, out[-1500:] if rc else None))
         else:
             obligations.append(("Tie/%s.v compiles" % pid, False, "extraction failed"))
             # make sure the model itself is built against the last good Gen/Src.v so that the
